@@ -25,6 +25,14 @@ def run(tier):
     ]
     plans.append(("sim-sets", dict(agents=(0,), maxch=4, maxreg=0, maxslots=1, maxsets=2, maxops=40, minops=18, maxqueue=6,
                                    kinds=("typed",), simulate=30 if tier == "quick" else 500, depth=250, tlcseed=seed() + 5), None))
+    # a message carrying an endpoint or a region is drained through a set and thrown away without being deserialised
+    # (what it carries must die with it), then anything happens: exhaustive after the prescribed prelude
+    for k, st in (("", ["new", "setnew", "setadd", "send", "setdrain", "*"]),
+                  ("-2", ["new", "new", "setnew", "setadd", "setadd", "send", "send", "setdrain", "*"])):
+        if k and tier == "quick":
+            continue
+        plans.append(("story-discard" + k, dict(agents=(0,), maxch=3 if k else 2, maxreg=1, maxslots=1, maxsets=1, maxops=len(st),
+                                                regionlens=(3,), story=st, discard=True), 4000))
     for name, g, limit in plans:
         t0 = time.time()
         r = chancheck.gen(wd, name, **g)
